@@ -25,7 +25,9 @@ Theorem C05_error_is_discarded_energy : forall (m n r : nat) (U M : nat -> nat -
   sumn m (fun i => sumn n (fun j => sq K (M i j - back K r U (proj K m r U M) i j))) =
   sumn m (fun i => sumn n (fun j => sq K (M i j))) - sumn r (fun k => sumn n (fun j => sq K (proj K m r U M k j))).
 Proof. exact (projection_error K Kth). Qed.
-(* left_ortho=False returns (U_r diag s, diag(sinv) U_r^T M): same product, null directions included *)
+(* left_ortho=False on the Gram-matrix ('eig') route returns (U_r diag s, diag(sinv) U_r^T M): same product, null directions
+   included.  (The 'svd' route returns the right singular vectors themselves; that their product with U_r diag s is the
+   truncated SVD is the contract of the LAPACK oracle.) *)
 Theorem C05_product_independent_of_side : forall (r : nat) (U W : nat -> nat -> K) (s sinv : nat -> K) i j,
   (forall k, (k < r)%nat -> s k * sinv k = 1 \/ W k j = 0) ->
   sumn r (fun k => (U i k * s k) * (sinv k * W k j)) = back K r U W i j.
